@@ -1,0 +1,12 @@
+//go:build verif
+
+package tls
+
+// VerifInstalledTicketKeys returns a copy of c.sessionTicketKeys as it is now: unlike
+// VerifTicketKeys it does not call c.ticketKeys, so a pending legacy SessionTicketKey is not
+// derived and installed by the observation itself.
+func VerifInstalledTicketKeys(c *Config) []TicketKey {
+	c.mutex.RLock()
+	defer c.mutex.RUnlock()
+	return ticketKeys(append([]ticketKey(nil), c.sessionTicketKeys...)).ToPublic()
+}
